@@ -1,0 +1,9 @@
+//! C14 hook: the crate-private `lifted_gate_matrix` (instruction/gate.rs) on an arbitrary matrix, so that
+//! the lifting to the n-qubit space can be checked on matrices that are not table entries.
+//! Add-only, `cfg(rigetti_quil_rs_verif)`.
+use crate::instruction::Matrix;
+
+/// `lifted_gate_matrix(matrix, qubits, n_qubits)`.
+pub fn lifted_gate_matrix(matrix: &Matrix, qubits: &[u64], n_qubits: u64) -> Matrix {
+    crate::instruction::verif_lifted_gate_matrix(matrix, qubits, n_qubits)
+}
